@@ -38,6 +38,7 @@ class StreamsDriver:
         self.kind = init["kind"]
         self.gsp = init["gsp"]
         self.hc = init["hc"]
+        self.made = init.get("made", "scope")
         self.call_view = (0, 0, 0)
         self.hold = None
         self.puller = None
@@ -79,13 +80,14 @@ class StreamsDriver:
         self.gen = gen
         self.source = {"agen": gen, "factory": factory, "raising": raising}[self.kind]
         w.start("1")
-        w.do("1", "ascope", 1, [("A", 1)], None, lambda m: drv.done.append(1))
+        if self.made == "scope":
+            w.do("1", "ascope", 1, [("A", 1)], None, lambda m: drv.done.append(1))
 
         def mk():
             drv.stream = ctx.stream(drv.source, "t")
 
-        w.do("1", "call", mk)
-        if self.place != "same":
+        w.do("1", "call", mk)     # made == "bare": outside every scope, in a context in which no variable was ever set
+        if self.place != "same" and self.made == "scope":
             w.do("1", "leave", "return")
         if self.place == "other_scope":
             w.do("1", "ascope", 2, [("A", 2)], None, None)
@@ -198,6 +200,7 @@ def gen_trace(rnd, max_items=8):
         n = 0
     init["gsp"] = init["kind"] == "agen" and n >= 1 and rnd.random() < 0.4
     init["hc"] = init["slow"] > 0 and rnd.random() < 0.4
+    init["made"] = "bare" if init["place"] != "same" and rnd.random() < 0.3 else "scope"
     d = StreamsDriver()
     d.reset(init)
     tr = [dict(ev="Init", init=init)]
@@ -231,9 +234,9 @@ def gen_trace(rnd, max_items=8):
 
 
 TRACE_KW = dict(
-    variables=["place", "n", "ending", "nested", "slow", "kind", "gsp", "hc", "pos", "sst", "s1done", "called", "sp", "nops", "obs"],
+    variables=["place", "n", "ending", "nested", "slow", "kind", "gsp", "hc", "made", "pos", "sst", "s1done", "called", "sp", "nops", "obs"],
     constants=dict(MaxItems=8, Bug='"none"'),
-    config_vars=["place", "n", "ending", "nested", "slow", "kind", "gsp", "hc"],
+    config_vars=["place", "n", "ending", "nested", "slow", "kind", "gsp", "hc", "made"],
     actions=dict(Pull=0, Release=0, EndSpawned=0, CancelPull=0, Close=0, Abandon=0),
     invariants=["ItemsInOrder", "GenSeesCreation", "CallSeesStreamScope", "ConsumerIntact", "StreamScopeCompletes",
                 "SpawnedSettled"])
@@ -268,7 +271,7 @@ def replay(rep, record):
     from harness.graph import parse_label
     d = StreamsDriver()
     d.reset(record["init"])
-    print("  scenario:", {k: record["init"][k] for k in ("place", "n", "ending", "nested", "slow", "kind", "gsp", "hc")})
+    print("  scenario:", {k: record["init"][k] for k in ("place", "n", "ending", "nested", "slow", "kind", "gsp", "hc", "made")})
     try:
         for lab in record["path"]:
             name, args = parse_label(lab)
